@@ -45,8 +45,11 @@ pub fn gen_link_set(t: &mut Tape, cfg: &LinkCfg) -> Vec<SrcFile> {
     let pool = gen_label_pool(t, npool);
     let mut defined_by: BTreeMap<String, usize> = BTreeMap::new();
     let mut files = vec![];
-    // address grid: origins x3000 + 8*k so that overlaps / touching happen when asked for
+    // address grid: origins base + 8*k so that overlaps / touching happen when asked for
     let mut used_slots: BTreeSet<i64> = BTreeSet::new();
+    // base of the grid: usually x3000; x0000 makes address 0 a definition address (the placeholder address of
+    // external labels), xFD00 puts blocks next to the I/O page (files that reach into it are dropped below)
+    let base: i64 = [0x3000, 0x0000, 0xFD00][t.weighted(&[5, 2, 1])];
     for fi in 0..nfiles {
         let nblocks = 1 + t.pick(2);
         let mut prog: Vec<MStmt> = vec![];
@@ -113,7 +116,7 @@ pub fn gen_link_set(t: &mut Tape, cfg: &LinkCfg) -> Vec<SrcFile> {
             for x in slot..slot + span {
                 used_slots.insert(x);
             }
-            let mut origin = 0x3000 + 8 * slot;
+            let mut origin = base + 8 * slot;
             if cfg.overlaps && t.chance(1, 8) {
                 origin += t.range(-3, 3);
             }
